@@ -109,6 +109,106 @@ def sim_behaviours(md: ModelDir, topo: Topo, spec, num, depth, seed, **cfgkw):
         shutil.rmtree(out, ignore_errors=True)
 
 
+def transition_cover(md: ModelDir, topo: Topo, spec, max_len=150, **cfgkw):
+    """Exhaustive state graph of a small configuration (TLC -dump dot, `lbl` part of the state so that every edge carries
+    its exact label) and a greedy path cover: a list of behaviours from the initial state that together traverse every
+    transition of the graph at least once.  Returns (TLCResult, behaviours, n_edges)."""
+    import re
+    dot = os.path.join(md.dir, 'graph.dot')
+    cfgkw.setdefault('invariants', ())
+    res = md.run('cover', topo.mc_cfg(spec, view=False, **cfgkw), timeout=900, extra=['-dump', 'dot,actionlabels', dot])
+    if res.error or res.timed_out or not os.path.exists(dot):
+        raise common.MachineryError(f'TLC state-graph dump failed on {topo.name}: {res.error or "timeout"}')
+    txt = open(dot).read()
+    nodes, succ = {}, {}
+    for m in re.finditer(r'^(-?\d+) \[label="((?:[^"\\]|\\.)*)"', txt, flags=re.M):
+        nodes[m.group(1)] = m.group(2)
+    init = None
+    for m in re.finditer(r'^(-?\d+) -> (-?\d+)', txt, flags=re.M):
+        a, b = m.group(1), m.group(2)
+        if a == b and False:
+            continue
+        succ.setdefault(a, [])
+        if b not in succ[a]:
+            succ[a].append(b)
+    cache = {}
+
+    def state(n):
+        if n not in cache:
+            cache[n] = common.parse_state(nodes[n].replace('\\n', '\n').replace('\\"', '"').replace('\\\\', '\\'))
+        return cache[n]
+    for n in nodes:
+        if '\\"init\\"' in nodes[n]:
+            init = n
+            break
+    if init is None:
+        raise common.MachineryError('no initial state in the dumped graph')
+    uncovered = {(a, b) for a, bs in succ.items() for b in bs if a != b}
+    total = len(uncovered)
+    # distance-to-uncovered search
+    from collections import deque
+    paths = []
+    while uncovered:
+        path = [init]
+        cur = init
+        while len(path) < max_len:
+            nxt = [b for b in succ.get(cur, []) if (cur, b) in uncovered]
+            if nxt:
+                b = nxt[0]
+                uncovered.discard((cur, b))
+                path.append(b)
+                cur = b
+                continue
+            # BFS to the nearest node with an uncovered outgoing edge
+            seen, dq, par = {cur}, deque([cur]), {}
+            goal = None
+            while dq:
+                x = dq.popleft()
+                if any((x, y) in uncovered for y in succ.get(x, [])):
+                    goal = x
+                    break
+                for y in succ.get(x, []):
+                    if y not in seen:
+                        seen.add(y)
+                        par[y] = x
+                        dq.append(y)
+            if goal is None or goal == cur:
+                break
+            hop = []
+            x = goal
+            while x != cur:
+                hop.append(x)
+                x = par[x]
+            hop.reverse()
+            if len(path) + len(hop) >= max_len:
+                break
+            path += hop
+            cur = goal
+        if len(path) == 1:
+            # remaining uncovered edges are not reachable within max_len from init along this strategy: walk a shortest path
+            a, b = next(iter(uncovered))
+            seen, dq, par = {init}, deque([init]), {}
+            while dq:
+                x = dq.popleft()
+                if x == a:
+                    break
+                for y in succ.get(x, []):
+                    if y not in seen:
+                        seen.add(y)
+                        par[y] = x
+                        dq.append(y)
+            hop = []
+            x = a
+            while x != init and x in par:
+                hop.append(x)
+                x = par[x]
+            hop.reverse()
+            path = [init] + hop + [b]
+            uncovered.discard((a, b))
+        paths.append([state(n) for n in path])
+    return res, paths, total
+
+
 def labels_of(beh):
     return [tuple(s['lbl']) for s in beh[1:]]
 
@@ -336,6 +436,40 @@ class Engine:
             self.rep.note(f'{ndiv}/{len(behs)} replayed behaviours of {topo.name}/{spec} diverge: design-level results do '
                           f'not transfer to this code on those paths')
         return ndiv
+
+    def cover(self, topo, spec, *, bounds=None, max_paths=None, **cfgkw):
+        """Transition cover of a small configuration: every transition of the model's state graph is replayed on the real
+        code (one path cover), the projection compared after every step."""
+        with ModelDir(topo, **(bounds or {})) as md:
+            res, paths, total = transition_cover(md, topo, spec, **cfgkw)
+        self.rep.add_tlc(f'{topo.name}/{spec}/cover', res, f'state graph dump: {total} transitions, path cover of {len(paths)} behaviours')
+        if max_paths and len(paths) > max_paths:
+            rng = common.rng(self.ctx, f'cover/{topo.name}')
+            paths = rng.sample(paths, max_paths)
+        t0 = time.time()
+        ndiv = nsteps = 0
+        for k, beh in enumerate(paths):
+            r = proto.replay(topo, beh)
+            pipe = r['pipe']
+            try:
+                self.rep.traces += 1
+                nsteps += len(beh) - 1
+                if not r['ok']:
+                    ndiv += 1
+                    if ndiv <= 3:
+                        self.rep.drift_note(f'{topo.name}/{spec} cover path {k}: real code diverges from the model at step '
+                                            f'{r["step"]} {tuple(r["label"])}: {str(r["diff"])[:400]}')
+                    finish_prompt(pipe, common.rng(self.ctx, f'coverdrift{k}'), 200)
+                self.judge_pipe(topo, pipe, {'kind': 'trace', 'topo': topo.name, 'topo_def': topo.to_dict(),
+                                             'seed': self.ctx.seed, 'trace': [list(t) for t in pipe.world.trace],
+                                             'origin': f'transition-cover path {k} of {topo.name}/{spec}'})
+            finally:
+                pipe.close()
+        self.rep.extra.setdefault('transition_cover', []).append(
+            {'config': f'{topo.name}/{spec}', 'model_transitions': total, 'paths_replayed': len(paths), 'steps_replayed': nsteps,
+             'paths_diverging': ndiv})
+        print(f'  [cover] {topo.name}/{spec}: {total} transitions, {len(paths)} paths ({nsteps} steps) replayed, {ndiv} diverge, '
+              f'{time.time() - t0:.1f}s', flush=True)
 
     # -- 4. random schedules on the real code --------------------------------------------------------------------------------
     def random_runs(self, topo, n, steps, *, p_timeout=0.05, p_drop=0.0, faults=None, judgekw=None, pipekw=None, tag='',
